@@ -1246,9 +1246,14 @@ theorem lookup_fans (b : Nat) :
     (decFanSpeedSupport b).lookup .QUIET = some (bitToBool b 1) ∧
     (decFanSpeedSupport b).lookup .AUTO = some (bitToBool b 0) := ⟨rfl, rfl, rfl, rfl, rfl, rfl, rfl, rfl⟩
 
-theorem rec_agrees_FF11 (acN : Nat) (r : Bytes) (a : AcAbility) (rest' : Bytes)
-    (h : decRec (acN :: 24 :: r) = .ok (a, rest')) :
-    rest' = r.drop 24 ∧ 24 ≤ r.length ∧ ∃ s, readAcAbilityBody acN 24 (r.take 24) = some s ∧ AgreeFF11 a s := by
+/-- One iteration of the repaired loop against the vendor reader, for EVERY following length `f`: a successful
+iteration returns the following-length byte it read (the loop slices `2 + f` bytes), `f` is at least the 24 described
+bytes, the record lies inside the remaining announced length, and the vendor reader reads the same record from the
+`f` following bytes (it ignores what follows the 24 described ones, as the decoder does). -/
+theorem rec_agrees_FF11 (acN f : Nat) (r : Bytes) (remaining : Nat) (a : AcAbility) (fl : Nat)
+    (h : decRec (acN :: f :: r) remaining = .ok (a, fl)) :
+    fl = f ∧ 24 ≤ f ∧ 2 + f ≤ remaining ∧ 24 ≤ r.length ∧
+      ∃ s, readAcAbilityBody acN f (r.take f) = some s ∧ AgreeFF11 a s := by
   unfold decRec at h
   simp only at h
   split at h
@@ -1256,122 +1261,43 @@ theorem rec_agrees_FF11 (acN : Nat) (r : Bytes) (a : AcAbility) (rest' : Bytes)
     simp only [nameLen] at hdrop
     split at h
     · cases h
-    · rename_i name hname
-      simp only [Except.ok.injEq, Prod.mk.injEq] at h
-      obtain ⟨ha, hr⟩ := h
-      subst ha; subst hr
-      have hlen : 24 ≤ r.length := by
-        have := congrArg List.length hdrop
-        simp only [List.length_drop, List.length_cons] at this
-        omega
-      have hd24 : r.drop 24 = rest := by
-        have : r.drop 24 = (r.drop 16).drop 8 := by rw [List.drop_drop]
-        rw [this, hdrop]; rfl
-      have hbody : (r.take 24).drop 16 = [sz, zc, b23, b24, c1, c2, h1, h2] := by
-        rw [List.drop_take, hdrop]; rfl
-      have htake : (r.take 24).take 16 = r.take 16 := by
-        rw [List.take_take]; rfl
-      refine ⟨hd24.symm, hlen, ?_⟩
-      simp only [readAcAbilityBody, hbody, htake]
-      refine ⟨_, rfl, ?_⟩
-      simp only [decodeCString] at hname
-      split at hname
-      · simp only [Except.ok.injEq] at hname
-        subst hname
-        refine ⟨rfl, untilNul_eq _, rfl, rfl, ?_, ?_, rfl, rfl, rfl, rfl⟩
-        · simp only [bit_eq]; exact lookup_modes b23
-        · simp only [bit_eq]; exact lookup_fans b24
-      · cases hname
+    · rename_i hchk
+      simp only [PyAirtouch.Gen.At5.X1FFF11AcAbility.STRUCT_size] at hchk
+      split at h
+      · cases h
+      · rename_i name hname
+        simp only [Except.ok.injEq, Prod.mk.injEq] at h
+        obtain ⟨ha, hr⟩ := h
+        subst ha; subst hr
+        have hlen : 24 ≤ r.length := by
+          have := congrArg List.length hdrop
+          simp only [List.length_drop, List.length_cons] at this
+          omega
+        obtain ⟨k, rfl⟩ : ∃ k, f = 24 + k := ⟨f - 24, by omega⟩
+        have hbody : (r.take (24 + k)).drop 16 = sz :: zc :: b23 :: b24 :: c1 :: c2 :: h1 :: h2 :: rest.take k := by
+          rw [List.drop_take, hdrop, show 24 + k - 16 = k + 8 by omega]
+          simp only [List.take_succ_cons]
+        have htake : (r.take (24 + k)).take 16 = r.take 16 := by
+          rw [List.take_take]; congr 1; omega
+        refine ⟨rfl, by omega, by omega, hlen, ?_⟩
+        simp only [readAcAbilityBody, hbody, htake]
+        refine ⟨_, rfl, ?_⟩
+        simp only [decodeCString] at hname
+        split at hname
+        · simp only [Except.ok.injEq] at hname
+          subst hname
+          refine ⟨rfl, untilNul_eq _, rfl, rfl, ?_, ?_, rfl, rfl, rfl, rfl⟩
+          · simp only [bit_eq]; exact lookup_modes b23
+          · simp only [bit_eq]; exact lookup_fans b24
+        · cases hname
   · cases h
 
-theorem decRec_shape_FF11 (bs : Bytes) (a : AcAbility) (r1 : Bytes) (h : decRec bs = .ok (a, r1)) :
-    ∃ acN f r, bs = acN :: f :: r := by
+theorem decRec_shape_FF11 (bs : Bytes) (remaining : Nat) (a : AcAbility) (fl : Nat)
+    (h : decRec bs remaining = .ok (a, fl)) : ∃ acN f r, bs = acN :: f :: r := by
   unfold decRec at h
   split at h
   · exact ⟨_, _, _, rfl⟩
   · cases h
-
-theorem recs_agree_FF11 : ∀ (n : Nat) (bs : Bytes) (acs : List AcAbility) (rest : Bytes) (fuel : Nat),
-    decRecs n bs = .ok (acs, rest) → bs.length = 26 * n → bs.length ≤ fuel →
-    (∀ i, i < n → bs[26 * i + 1]? = some 24) →
-    rest = [] ∧ ∃ ss, readAcAbilityRecords fuel bs = some ss ∧ RecordWise AgreeFF11 acs ss ∧
-      ∀ s ∈ ss, s.followingLength = 24
-  | 0, bs, acs, rest, fuel, h, hl, _, _ => by
-    have : bs = [] := List.eq_nil_of_length_eq_zero (by omega)
-    subst this
-    simp only [decRecs, Except.ok.injEq, Prod.mk.injEq] at h
-    obtain ⟨rfl, rfl⟩ := h
-    exact ⟨rfl, [], by cases fuel <;> rfl, .nil, by simp⟩
-  | n + 1, bs, acs, rest, fuel, h, hl, hf, hfl => by
-    simp only [decRecs] at h
-    split at h
-    · cases h
-    · rename_i a r1 ha
-      split at h
-      · cases h
-      · rename_i acs' rest' hrs
-        simp only [Except.ok.injEq, Prod.mk.injEq] at h
-        obtain ⟨rfl, rfl⟩ := h
-        obtain ⟨acN, f, r, rfl⟩ := decRec_shape_FF11 bs a r1 ha
-        have h24 : f = 24 := by simpa using hfl 0 (by omega)
-        subst h24
-        obtain ⟨hr1, hlen, s, hs, hag⟩ := rec_agrees_FF11 acN r a r1 ha
-        subst hr1
-        simp only [List.length_cons] at hl hf
-        cases fuel with
-        | zero => omega
-        | succ fuel =>
-          obtain ⟨hrest, ss, hss, hrw, hall⟩ := recs_agree_FF11 n (r.drop 24) acs' rest' fuel hrs
-            (by simp only [List.length_drop]; omega) (by simp only [List.length_drop]; omega)
-            (fun i hi => by
-              have := hfl (i + 1) (by omega)
-              rw [List.getElem?_drop]
-              rw [← this]
-              have e : 26 * (i + 1) + 1 = (24 + (26 * i + 1)) + 1 + 1 := by omega
-              rw [e, List.getElem?_cons_succ, List.getElem?_cons_succ])
-          refine ⟨hrest, s :: ss, ?_, .cons hag hrw, ?_⟩
-          · have : ¬ r.length < 24 := by omega
-            simp only [readAcAbilityRecords, this, if_false, hs, hss]
-          · intro s' hs'
-            rcases List.mem_cons.mp hs' with rfl | hs'
-            · unfold readAcAbilityBody at hs
-              split at hs
-              · cases hs; rfl
-              · cases hs
-            · exact hall s' hs'
-
-theorem decode_ability_FF11 (b : Bytes) (acs : List AcAbility) (rest : Bytes)
-    (h : decode b b.length = .ok (.ability acs, rest)) :
-    b.length = 26 * (b.length / 26) ∧ decRecs (b.length / 26) b = .ok (acs, rest) := by
-  unfold decode at h
-  split at h
-  · cases h
-  · split at h
-    · split at h <;> cases h
-    · split at h
-      · cases h
-      · rename_i hm
-        have : recSize = 26 := rfl
-        rw [this] at hm h
-        refine ⟨by omega, ?_⟩
-        split at h
-        · cases h
-        · rename_i acs' rest' hd
-          simp only [Except.ok.injEq, Prod.mk.injEq, Msg.ability.injEq] at h
-          rw [hd, h.1, h.2]
-
-/-- **AC ability.**  KNOWN, RECORDED DEFECT kept out by the hypothesis `hfl`: the decoder does not use the
-"following data length" byte (Byte4 of each record) to advance, it always advances by 26.  The statement is
-therefore made for payloads in which every 26-byte record announces the documented following length 24.  Under it
-the decoder's reading is the vendor reading, record by record, and all of the payload is consumed. -/
-theorem decode_agrees_FF11 (b : Bytes) (hfl : ∀ i, i < b.length / 26 → b[26 * i + 1]? = some 24)
-    (acs : List AcAbility) (rest : Bytes) (h : decode b b.length = .ok (.ability acs, rest)) :
-    rest = [] ∧ ∃ ss, readAcAbility ([0xFF, 0x11] ++ b) = some ss ∧ RecordWise AgreeFF11 acs ss ∧
-      ∀ s ∈ ss, s.followingLength = 24 := by
-  obtain ⟨hl, hd⟩ := decode_ability_FF11 b acs rest h
-  obtain ⟨hrest, ss, hss, hag, hall⟩ := recs_agree_FF11 _ b acs rest b.length hd hl (Nat.le_refl _) hfl
-  refine ⟨hrest, ss, ?_, hag, hall⟩
-  simp only [List.cons_append, List.nil_append, readAcAbility, PyAirtouch.Spec.At5.extAcAbility, if_true, hss]
 
 theorem body_followingLength (ac len : Nat) (body : Bytes) (r : Spec.At5.AcAbility)
     (h : readAcAbilityBody ac len body = some r) : r.followingLength = len := by
@@ -1380,66 +1306,99 @@ theorem body_followingLength (ac len : Nat) (body : Bytes) (r : Spec.At5.AcAbili
   · cases h; rfl
   · cases h
 
-/-- a vendor reading whose records all announce following length 24 lies on the 26-byte grid -/
-theorem spec_following_24 : ∀ (fuel : Nat) (bs : Bytes) (ss : List Spec.At5.AcAbility),
-    readAcAbilityRecords fuel bs = some ss → (∀ s ∈ ss, s.followingLength = 24) →
-    bs.length = 26 * ss.length ∧ ∀ i, i < ss.length → bs[26 * i + 1]? = some 24
-  | _, [], ss, h, _ => by
-    have : ss = [] := by cases ‹Nat› <;> (simp only [readAcAbilityRecords, Option.some.injEq] at h; exact h.symm)
+/-- the repaired `while remaining_length > 0` loop on exactly the announced bytes: it consumes them all and its
+records are the vendor reader's, whatever the following lengths (each at least 24) -/
+theorem loop_agrees_FF11 (bs : Bytes) (remaining : Nat) :
+    ∀ (acs : List AcAbility) (rest : Bytes) (fuel : Nat),
+    decLoop bs remaining = .ok (acs, rest) → bs.length = remaining → bs.length ≤ fuel →
+    rest = [] ∧ ∃ ss, readAcAbilityRecords fuel bs = some ss ∧ RecordWise AgreeFF11 acs ss ∧
+      ∀ s ∈ ss, 24 ≤ s.followingLength := by
+  fun_induction decLoop bs remaining with
+  | case1 bs remaining hpos e hrec => intro acs rest fuel h; cases h
+  | case2 bs remaining hpos ac fl hrec e hloop ih => intro acs rest fuel h; cases h
+  | case3 bs remaining hpos a fl hrec acs' rest' hloop ih =>
+    intro acs rest fuel h hl hf
+    simp only [Except.ok.injEq, Prod.mk.injEq] at h
+    obtain ⟨rfl, rfl⟩ := h
+    obtain ⟨acN, f, r, rfl⟩ := decRec_shape_FF11 bs remaining a fl hrec
+    obtain ⟨hfl, h24, hfit, hlen, s, hs, hag⟩ := rec_agrees_FF11 acN f r remaining a fl hrec
+    subst hfl
+    simp only [List.length_cons] at hl hf
+    have hdrop : (acN :: fl :: r).drop (2 + fl) = r.drop fl := by
+      rw [show 2 + fl = fl + 1 + 1 by omega]; rfl
+    rw [hdrop] at ih hloop
+    cases fuel with
+    | zero => omega
+    | succ fuel =>
+      obtain ⟨hrest, ss, hss, hrw, hall⟩ := ih acs' rest' fuel hloop
+        (by simp only [List.length_drop]; omega) (by simp only [List.length_drop]; omega)
+      refine ⟨hrest, s :: ss, ?_, .cons hag hrw, ?_⟩
+      · have : ¬ r.length < fl := by omega
+        simp only [readAcAbilityRecords, this, if_false, hs, hss]
+      · intro s' hs'
+        rcases List.mem_cons.mp hs' with rfl | hs'
+        · rw [body_followingLength acN fl _ _ hs]; exact h24
+        · exact hall s' hs'
+  | case4 bs remaining hnpos =>
+    intro acs rest fuel h hl _
+    simp only [Except.ok.injEq, Prod.mk.injEq] at h
+    obtain ⟨rfl, rfl⟩ := h
+    have : bs = [] := List.eq_nil_of_length_eq_zero (by omega)
     subst this
-    exact ⟨rfl, fun i hi => by simp at hi⟩
-  | 0, _ :: _, ss, h, _ => by simp [readAcAbilityRecords] at h
-  | fuel + 1, [_], ss, h, _ => by simp [readAcAbilityRecords] at h
-  | fuel + 1, ac :: len :: rest, ss, h, hall => by
-    simp only [readAcAbilityRecords] at h
-    split at h
-    · cases h
-    · rename_i hlen
-      split at h
-      · rename_i r rs hr hrs
-        cases h
-        have h24 : len = 24 := by
-          rw [← body_followingLength ac len _ r hr]; exact hall r (by simp)
-        subst h24
-        obtain ⟨hl, hp⟩ := spec_following_24 fuel (rest.drop 24) rs hrs (fun s hs => hall s (by simp [hs]))
-        simp only [List.length_drop] at hl
-        refine ⟨by simp only [List.length_cons]; omega, ?_⟩
-        intro i hi
-        cases i with
-        | zero => simp
-        | succ i =>
-          have := hp i (by simpa using hi)
-          rw [List.getElem?_drop] at this
-          rw [← this]
-          have e : 26 * (i + 1) + 1 = (24 + (26 * i + 1)) + 1 + 1 := by omega
-          rw [e, List.getElem?_cons_succ, List.getElem?_cons_succ]
-      · cases h
+    exact ⟨rfl, [], by cases fuel <;> rfl, .nil, by simp⟩
 
-/-- The same under the hypothesis in the vendor reading's terms: whenever the vendor reader reads the payload and
-every record's following length is the documented 24, the decoder's records are the vendor's. -/
+theorem decode_ability_FF11 (b : Bytes) (acs : List AcAbility) (rest : Bytes)
+    (h : decode b b.length = .ok (.ability acs, rest)) : decLoop b b.length = .ok (acs, rest) := by
+  unfold decode at h
+  split at h
+  · cases h
+  · split at h
+    · split at h <;> cases h
+    · split at h
+      · cases h
+      · rename_i acs' rest' hd
+        simp only [Except.ok.injEq, Prod.mk.injEq, Msg.ability.injEq] at h
+        rw [hd, h.1, h.2]
+
+/-- **AC ability.**  For EVERY following length (the decoder advances by the "following data length" byte, Byte4 of
+each record, as the vendor reader does; formerly a recorded defect kept out by a hypothesis): whenever the decoder
+accepts a payload as an ability message, all of the payload is consumed, the vendor reader reads it too, and the
+decoder's reading is the vendor reading, record by record.  Every record's following length is at least the 24
+described bytes. -/
+theorem decode_agrees_FF11 (b : Bytes)
+    (acs : List AcAbility) (rest : Bytes) (h : decode b b.length = .ok (.ability acs, rest)) :
+    rest = [] ∧ ∃ ss, readAcAbility ([0xFF, 0x11] ++ b) = some ss ∧ RecordWise AgreeFF11 acs ss ∧
+      ∀ s ∈ ss, 24 ≤ s.followingLength := by
+  have hd := decode_ability_FF11 b acs rest h
+  obtain ⟨hrest, ss, hss, hag, hall⟩ := loop_agrees_FF11 b b.length acs rest b.length hd rfl (Nat.le_refl _)
+  refine ⟨hrest, ss, ?_, hag, hall⟩
+  simp only [List.cons_append, List.nil_append, readAcAbility, PyAirtouch.Spec.At5.extAcAbility, if_true, hss]
+
+/-- The same in the vendor reading's terms: whenever the vendor reader reads the payload into `ss`, the decoder's
+records are those, whatever their following lengths. -/
 theorem decode_agrees_FF11_of_spec (b : Bytes) (acs : List AcAbility) (rest : Bytes) (ss : List Spec.At5.AcAbility)
-    (h : decode b b.length = .ok (.ability acs, rest)) (hs : readAcAbility ([0xFF, 0x11] ++ b) = some ss)
-    (hfl : ∀ s ∈ ss, s.followingLength = 24) : RecordWise AgreeFF11 acs ss ∧ rest = [] := by
-  have hs' : readAcAbilityRecords b.length b = some ss := by
-    simpa only [List.cons_append, List.nil_append, readAcAbility, PyAirtouch.Spec.At5.extAcAbility, if_true] using hs
-  obtain ⟨hl, hp⟩ := spec_following_24 _ b ss hs' hfl
-  have hn : b.length / 26 = ss.length := by omega
-  obtain ⟨hrest, ss', hss', hag, _⟩ := decode_agrees_FF11 b (fun i hi => hp i (by omega)) acs rest h
+    (h : decode b b.length = .ok (.ability acs, rest)) (hs : readAcAbility ([0xFF, 0x11] ++ b) = some ss) :
+    RecordWise AgreeFF11 acs ss ∧ rest = [] := by
+  obtain ⟨hrest, ss', hss', hag, _⟩ := decode_agrees_FF11 b acs rest h
   rw [hs] at hss'
   cases hss'
   exact ⟨hag, hrest⟩
 
-/-- The recorded defect, concretely (`ff11 00 32 …`): one AC whose record announces following length 50 (the 24
-documented bytes and 26 more).  The vendor reading is ONE AC; the decoder, advancing by 26 whatever Byte4 says,
-returns TWO.  So the hypothesis of `decode_agrees_FF11` cannot be dropped. -/
-def refutedFF11 : Bytes :=
+/-- The repaired defect, concretely (`ff11 00 32 …`): one AC whose record announces following length 50 (the 24
+documented bytes and 26 more a future console might append).  The vendor reading is ONE AC, and so is the decoder's
+(advancing by 26 whatever Byte4 said, it used to return TWO). -/
+def longFF11 : Bytes :=
   [0x00, 0x32, 0x55, 0x4E, 0x49, 0x54, 0, 0, 0, 0, 0, 0, 0, 0, 0, 0, 0, 0, 0x00, 0x04, 0x17, 0x1D, 0x10, 0x1F, 0x12, 0x1F] ++
-  List.replicate 26 0
+  List.replicate 26 0xEE
 
-theorem decode_agrees_FF11_refuted :
-    (∃ a1 a2, decode refutedFF11 refutedFF11.length = .ok (.ability [a1, a2], [])) ∧
-    (∃ s, readAcAbility ([0xFF, 0x11] ++ refutedFF11) = some [s] ∧ s.followingLength = 50) :=
-  ⟨⟨_, _, rfl⟩, ⟨_, rfl, rfl⟩⟩
+def isOneAbilityNamed (n : Bytes) : Except DecErr (Msg × Bytes) → Bool
+  | .ok (.ability [a], []) => a.ac_name == n
+  | _ => false
+
+theorem decode_FF11_long_record :
+    isOneAbilityNamed [0x55, 0x4E, 0x49, 0x54] (decode longFF11 longFF11.length) = true ∧
+    (∃ s, readAcAbility ([0xFF, 0x11] ++ longFF11) = some [s] ∧ s.followingLength = 50) :=
+  ⟨by decide +kernel, ⟨_, rfl, rfl⟩⟩
 
 /-- what the decoder reads as a request (no byte: all ACs; one byte: that AC) is the vendor's request of the same
 meaning -/
@@ -1467,6 +1426,6 @@ theorem request_form_FF11 (b : Bytes) (r : Option Nat) (rest : Bytes)
     simp only [decode, h0, h1, if_false] at h
     split at h
     · cases h
-    · split at h <;> cases h
+    · cases h
 end FF11
 end PyAirtouch.Lemmas.SpecAgree5
